@@ -72,7 +72,8 @@ def populate(rng, L, steps, n=None, names=None, allow_invalid=False, now=None, o
             loc = odir + '/' + base
             pv = pct(loc)
         else:
-            odir = rng.choice([top + '/docs', top + '/docs/sub', top])
+            odir = rng.choice([L['work'].get(top, top + '/docs'), L['work'].get(top, top + '/docs') + '/sub', top, top + '/tmp', top + '/archive/old', top + '/Photos',
+                               top + '/home', top + '/=eq', top + '/Path=x', top + '/ lead'])
             loc = odir + '/' + base
             pv = pct(loc[len(top) + 1:]) if rng.random() < 0.85 else pct(loc)
         d = date_fn(rng) if date_fn else rand_date(rng, now)
